@@ -28,6 +28,8 @@ TEMPLATES = {
     "eq_dataclass": ("    res.append(new == snapshot(P(a=c0, b=5)))\n", ["c0", "n0", "n1"], "P(a=n0, b=n1)"),
     "eq_dataclass_pos": ("    res.append(new == snapshot(P(c0, c=[c1])))\n", ["c0", "c1", "n0", "n1"], "P(a=n0, c=[n1])"),
     "eq_create": ("    res.append(new == snapshot())\n", ["n0", "n1"], "[n0, (n1,), {1: n0}]"),
+    "eq_tuple1_for_other_type": ("    res.append(new == snapshot({1: c0, 2: [c1]}))\n", ["c0", "c1", "n0", "n1"], "{1: (n0,), 2: [(n1,)]}"),
+    "eq_tuple1_in_dataclass": ("    res.append(new == snapshot(P(a=c0, c=[c1])))\n", ["c0", "c1", "n0", "n1"], "P(a=(n0,), c=[(), (n1,)])"),
     "eq_type_change": ("    res.append(new == snapshot(c0))\n", ["c0", "n0"], "[n0]"),
     "le_loop": ("    for x in new:\n        res.append(x <= snapshot(c0))\n", ["c0", "n0", "n1"], "[n0, n1]"),
     "ge_hand": ("    for x in new:\n        res.append(x >= snapshot(h0))\n", ["h0", "n0", "n1"], "[n0, n1]"),
